@@ -58,9 +58,11 @@ type Case struct {
 	Ops    []Op    `json:"ops"`
 }
 
-var fsPool = []string{" ", ",", "|", ".", "*", "[", "\t", "é", ":", ", *", "[,;]+", "ab", "a|b", "x*", "[ ]", "\\|", ":+", "(,|;)", "a|ab"}
+var fsPool = []string{" ", ",", "|", ".", "*", "[", "\t", "é", ":", ", *", "[,;]+", "ab", "a|b", "x*", "[ ]", "\\|", ":+", "(,|;)", "a|ab",
+	// two-character regexes made of a backslash and a letter or sign: control escapes, classes, escaped punctuation
+	"\\t", "\\n", "\\r", "\\f", "\\v", "\\a", "\\.", "\\*", "\\[", "\\s", "\\d", "\\w", "[\\t ]", "\\t+", "\\\\"}
 var ofsPool = []string{" ", "-", "", ",", "::", "\t", "é", "\n"}
-var recPieces = []string{"a", "b", "ab", "x", "12", "3.5", " ", "  ", "\t", ",", ",,", ";", ":", "|", ".", "*", "[", "é", "日本", "aab", "\"", "q\"q",
+var recPieces = []string{"a", "b", "ab", "x", "12", "3.5", " ", "  ", "\t", "t", "n", "r", "f", "v", "s", "d", "w", "\\", ",", ",,", ";", ":", "|", ".", "*", "[", "é", "日本", "aab", "\"", "q\"q",
 	// white space that is NOT a blank: field content under the default FS
 	"\v", "\f", "\r", "\u00a0", "\u2003", "\u0085", "\x00", "\xa0"}
 
